@@ -374,6 +374,20 @@ def run(tier):
                 v.witness("id_reused_after_full_cycle", "churn", "identifier %d reused while its first request is outstanding" % r["a"],
                           {"scenario": c, "result": {k: r[k] for k in ("a", "b", "ev")}})
 
+    # "an identifier the caller already put on a message is used unchanged" on the retrying client: the message may be
+    # sent for the first time from the client's queued copy (submitted during an outage) and repeated after faults
+    import retry_family as rf
+    fam = rf.Family(PID)
+    fam.verd = v
+    pp = lambda q, pid: dict(rf.PUB(q), pid=pid)  # noqa: E731
+    rsc = []
+    for q in (1, 2):
+        for pid in (0x1234, 1, 65535):
+            for tm in (["conn", "conn"], ["conn", "dial:2"], ["conn", "connopt:3"], ["pre", "pre"]):
+                for fl in ([], [{"k": 2, "o": "cutAfter"}], [{"k": 2, "o": "cutBefore"}], [{"k": 2, "o": "cutAfter"}, {"k": 5, "o": "cutAfter"}]):
+                    rsc.append(rf.scenario("pid-%d" % len(rsc), [rf.PUB(1), pp(q, pid)], tm, fl))
+    fam.execute(binary, rsc)
+
     model = collect_model()
     apa = collect_apa()
     pool.shutdown()
@@ -390,7 +404,7 @@ def run(tier):
         "apalache_symbolic_M": apa,
         "traces_validated_against_impl": conform,
         "traces_total": len(scen), "model_deviations": len(notes),
-        "alloc_runs": len(alloc), "alloc_runs_crossing_full_16bit_cycle": len(full), "api_runs": len(api), "script_runs": len(scr),
+        "alloc_runs": len(alloc), "alloc_runs_crossing_full_16bit_cycle": len(full), "api_runs": len(api), "script_runs": len(scr), "retry_client_preset_id_runs": fam.stats["traces_validated"],
         "identifiers_validated_by_tlc": n_ids, "log_events_validated_by_tlc": sum(len(results[i]["ev"]) for i in scen),
         "wraparounds_16bit_seen": wraps16,
         "starts_32bit_wrap": len([s for s in alloc + api + scr if s["hi"] == 0xFFFF]),
